@@ -48,10 +48,13 @@ package atree
 //@   ensures r != nil && isUser(r) && isKeyNotFound(r) && !isFatal(r) && fresh(r)
 //@   modifies alloc
 
+//@ # refusals: number of collision-limit refusals raised so far (ghost; bumped where the error is constructed)
+//@ ghost refusals : int
+
 //@ func NewCollisionLimitError(limit) (r)  serves C18
 //@   trusted "errors.As follows Unwrap: NewFatalError(&CollisionLimitError{}) is both a fatal error and a CollisionLimitError"
-//@   ensures r != nil && isFatal(r) && isCollisionLimit(r) && !isKeyNotFound(r) && fresh(r)
-//@   modifies alloc
+//@   ensures r != nil && isFatal(r) && isCollisionLimit(r) && !isKeyNotFound(r) && fresh(r) && refusals == old(refusals) + 1
+//@   modifies ghost.refusals, alloc
 
 //@ # ---- caller-supplied key equality (A5: a function of its arguments) and element-level dictionary view
 //@ ghost keq : fn(key Value, stored Storable) bool
@@ -136,7 +139,14 @@ package atree
 //@   ensures[C12] e.level == 0 && level < 4 && is(digester, *basicDigester) && (exists k :: 0 <= k && k < len(old(e.hkeys)) && old(e.hkeys)[k] == hkey && countOK(old(e.elems)[k]) &&
 //@        ecount(old(e.elems)[k]) >= 1 && ecount(old(e.elems)[k]) - 1 >= maxCollisionLimitPerDigest && gerr(old(e.elems)[k], key) == 1) ==>
 //@        isCollisionLimit(err) && sameHk(e) && sto == old(sto)
-//@   modifies hkeyElements.*@inSub(e), singleElement.*@inSub(e), inlineCollisionGroup.*@inSub(e), externalCollisionGroup.*@inSub(e), singleElements.*@inSub(e),
+//@   # ... and is raised in no other situation: not below the first level, not for a digest that is new to the list, not for an
+//@   # update of a key that is present, not while the group is under the limit
+//@   ensures[C12] old(e.level) > 0 ==> refusals == old(refusals)
+//@   ensures[C12] (forall k :: 0 <= k && k < len(old(e.hkeys)) ==> old(e.hkeys)[k] != hkey) ==> refusals == old(refusals)
+//@   ensures[C12] (exists k :: 0 <= k && k < len(old(e.hkeys)) && old(e.hkeys)[k] == hkey && gerr(old(e.elems)[k], key) == 0) ==> refusals == old(refusals)
+//@   ensures[C12] (exists k :: 0 <= k && k < len(old(e.hkeys)) && old(e.hkeys)[k] == hkey && countOK(old(e.elems)[k]) && ecount(old(e.elems)[k]) >= 1 &&
+//@        ecount(old(e.elems)[k]) - 1 < maxCollisionLimitPerDigest) ==> refusals == old(refusals)
+//@   modifies ghost.refusals, hkeyElements.*@inSub(e), singleElement.*@inSub(e), inlineCollisionGroup.*@inSub(e), externalCollisionGroup.*@inSub(e), singleElements.*@inSub(e),
 //@        ghost.sto, ghost.stored, ghost.touched, alloc,
 //@        as(valueRoot(key), *ArrayDataSlab).header, as(valueRoot(key), *ArrayDataSlab).inlined, as(valueRoot(key), *MapDataSlab).header, as(valueRoot(key), *MapDataSlab).inlined,
 //@        as(valueRoot(value), *ArrayDataSlab).header, as(valueRoot(value), *ArrayDataSlab).inlined, as(valueRoot(value), *MapDataSlab).header, as(valueRoot(value), *MapDataSlab).inlined
